@@ -102,6 +102,12 @@ def classify(diags, lines, fns):
                 fn_rl = lines[prim["line_start"] - 1].get("fn")
             rlimit.append(dict(message=msg, fn=fn_rl, line=prim["line_start"] if prim else None))
             continue
+        code = (d.get("code") or {}).get("code") if isinstance(d.get("code"), dict) else d.get("code")
+        if code:
+            # a rustc error (E0277 "trait bound .. is not satisfied", E0425, ..): the generated file does not type-check,
+            # which is a construct outside the verified subset or a lost identifier - never a failed obligation
+            other.append(dict(message="rustc %s: %s" % (code, msg), rendered=d.get("rendered", "")[:1500]))
+            continue
         if not any(m in msg for m in FAIL_MSGS) or prim is None:
             other.append(dict(message=msg, rendered=d.get("rendered", "")[:1500]))
             continue
@@ -412,10 +418,10 @@ def write_evidence(sess, prop, tier, failed, known, undecided=None, wall=0.0, ka
             trusted_base=sorted({"%s: %s" % (c["what"], c["text"][:90]) for c in cheats}),
             functions_under_contract=fn_rows,
             back_end="Verus 0.2026.09.13 / Z3 (bundled)",
-            verus_results=sess.main["json"].get("verification-results") if sess and hasattr(sess, "main") else None,
+            verus_results=(sess.main.get("json") or {}).get("verification-results") if sess and hasattr(sess, "main") else None,
             verus_wall_s=round(sess.main["wall"], 2) if sess and hasattr(sess, "main") else None,
             verus_cache_hit=sess.main.get("cache_hit") if sess and hasattr(sess, "main") else None,
-            smt_total_ms=(sess.main["json"]["times-ms"]["smt"]["total"] if sess and hasattr(sess, "main") else None),
+            smt_total_ms=(((sess.main.get("json") or {}).get("times-ms") or {}).get("smt") or {}).get("total") if sess and hasattr(sess, "main") else None,
             canaries_expected=getattr(sess, "n_canaries", 0), canaries_failed_as_required=getattr(sess, "canaries_failed", 0),
             samples=[dict(label=o["label"], function=o["fn"], contract="%s:%s" % tuple(o["tmpl"]) if o.get("tmpl") else None)
                      for o in labelled[:6]],
@@ -431,6 +437,10 @@ def write_evidence(sess, prop, tier, failed, known, undecided=None, wall=0.0, ka
         wall_s=round(wall, 2),
         violations=len(failed),
     )
+    if undecided is not None:
+        # no verdict, hence no proof-level evidence: say so instead of reporting zero discharged obligations as a proof
+        ev["level"] = "other"
+        ev["coverage"]["explanation"] = "this run reached no verdict (exit 2), nothing was proved or refuted: " + str(undecided)
     json.dump(ev, open(os.path.join(EVID, prop + ".json"), "w"), indent=1)
 
 
@@ -494,7 +504,7 @@ def selftest_for(prop, repo):
     sd = os.path.join(VERIF, "seeded")
     for d in sorted(os.listdir(sd)) if os.path.isdir(sd) else []:
         mp = os.path.join(sd, d, "meta.json")
-        if os.path.exists(mp) and json.load(open(mp)).get("property") == prop:
+        if os.path.exists(mp) and json.load(open(mp)).get("property") == prop and json.load(open(mp)).get("expect_rc", 1) == 1:
             cands.append((d, os.path.join(sd, d, "patch.diff")))
     ux = os.path.join(VERIF, "selftest", "unfix.json")
     if os.path.exists(ux):
@@ -679,4 +689,12 @@ def replay(path, repo):
 
 
 if __name__ == "__main__":
-    sys.exit(main())
+    try:
+        sys.exit(main())
+    except SystemExit:
+        raise
+    except BaseException as e:   # a crash of the machinery is never a verdict on the code
+        import traceback
+        traceback.print_exc()
+        print("UNDECIDED reason=internal error of the checker: %r" % (e,))
+        sys.exit(2)
